@@ -22,6 +22,9 @@ pub struct Case {
     /// additionally compare with the real FollowFileExecutor (child process)
     #[serde(default)]
     pub follow: bool,
+    /// long history: the lines are repeated this many times and the batch comparison is made at the listed prefixes only
+    #[serde(default)]
+    pub long: Option<(usize, Vec<usize>)>,
 }
 
 pub struct C11;
@@ -41,7 +44,7 @@ impl Property for C11 {
     }
 
     fn rule(&self) -> String {
-        "a statement without LIMIT (plain, DISTINCT, aggregate +- GROUP BY +- HAVING +- DISTINCT, wrappers) x 1-14 lines including non-admitted and filtered ones. Oracle: one long-lived ExecutionEngine \
+        "a statement without LIMIT (plain, DISTINCT, aggregate +- GROUP BY +- HAVING +- DISTINCT, wrappers) x 1-14 lines including non-admitted and filtered ones (one case in 25: the lines repeated to 150-1500, compared at eight prefixes). Oracle: one long-lived ExecutionEngine \
          fed line by line with the default (update + result) configuration, as follow mode does; for EVERY prefix k: aggregate: the table shown after line k (carried over when line k shows none) = the \
          records a fresh FileExecutor batch run prints for the first k lines; non-aggregate: the rows emitted for line k = the suffix by which batch(k) extends batch(k-1). \
          Non-trivial: an aggregate statement with >= 2 refreshes that show >= 2 rows, or a DISTINCT statement with a repeated tuple; distinct by case."
@@ -54,7 +57,7 @@ impl Property for C11 {
 
     fn cases(&self, tier: Tier) -> u64 {
         match tier {
-            Tier::Quick => 25_000,
+            Tier::Quick => 75_000,
             Tier::Thorough => 800_000,
         }
     }
@@ -81,7 +84,20 @@ impl Property for C11 {
         }
         let lines = crate::props::c04::gen_group_lines(t, &g.table, 14);
         let follow = t.chance(1, 30);
-        Case { table: g.table, query: g.query, lines, follow }
+        let long = if !follow && lines.len() >= 3 && t.chance(1, 25) {
+            // hundreds of refreshes: 150-1500 lines, compared at eight prefixes
+            let repeat = (150 + t.draw(1350)) / lines.len() + 1;
+            let n = lines.len() * repeat;
+            let mut points: Vec<usize> = (0..6).map(|_| 1 + t.draw(n)).collect();
+            points.push(n);
+            points.push(n - 1);
+            points.sort();
+            points.dedup();
+            Some((repeat, points))
+        } else {
+            None
+        };
+        Case { table: g.table, query: g.query, lines, follow, long }
     }
 
     fn check(&self, case: &Case, ctx: &Ctx, obs: &mut Obs) -> Result<(), Failure> {
@@ -105,62 +121,75 @@ impl Property for C11 {
             obs.label("having");
         }
 
+        let lines: Vec<String> = match &case.long {
+            Some((repeat, _)) => {
+                obs.label("long-history");
+                (0..*repeat).flat_map(|_| case.lines.iter().cloned()).collect()
+            }
+            None => case.lines.clone(),
+        };
+        let is_point = |k: usize| match &case.long {
+            Some((_, points)) => points.contains(&k),
+            None => true,
+        };
         let mut engine = ExecutionEngine::new(&p.tables, &p.statement);
         // what the follow executor is expected to print: per refreshing line the table (aggregate) / the emitted rows
         let mut transcript: Vec<Vec<String>> = Vec::new();
         let mut shown: Vec<String> = Vec::new(); // aggregate: current table; select: all rows so far
-        let mut prev_batch: Vec<String> = Vec::new();
         let mut refreshes_with_two_rows = 0;
-        for k in 1..=case.lines.len() {
+        let batch_of = |k: usize| -> Result<RunOut, Failure> {
+            let files = scratch_files(ctx, "c11", &[lines_to_bytes(&lines[..k])]);
+            run_batch(&p.tables, &p.statement, &files, RunOptions::default()).map_err(panic_fail)
+        };
+        for k in 1..=lines.len() {
             obs.inner += 1;
-            let inc = engine_line(&mut engine, &case.lines[k - 1], &ExecutionConfig::default()).map_err(panic_fail)?;
-            let files = scratch_files(ctx, "c11", &[lines_to_bytes(&case.lines[..k])]);
-            let batch = run_batch(&p.tables, &p.statement, &files, RunOptions::default()).map_err(panic_fail)?;
+            let inc = engine_line(&mut engine, &lines[k - 1], &ExecutionConfig::default()).map_err(panic_fail)?;
             let inc = match inc {
                 Ok(lo) => lo,
                 Err(e) => {
                     // the incremental path fails at line k: the batch over k lines must fail too
-                    if batch.result.is_err() {
+                    if batch_of(k)?.result.is_err() {
                         obs.unspecified += 1;
                         return Ok(());
                     }
                     return Err(Failure::new(format!("incremental-error-only: {}", kind), format!("line {}: incremental run fails ({}) but the batch run over the prefix succeeds\n  {}", k, e, context)));
                 }
             };
+            if let Some(rr) = &inc.result {
+                let printed: Vec<String> = print_rows(rr).into_iter().filter(|l| !l.is_empty()).collect();
+                if case.long.is_none() {
+                    transcript.push(printed.clone());
+                }
+                if aggregate {
+                    if printed.len() >= 2 {
+                        refreshes_with_two_rows += 1;
+                    }
+                    shown = printed;
+                } else {
+                    shown.extend(printed);
+                }
+            }
+            if !is_point(k) {
+                continue;
+            }
+            let batch = batch_of(k)?;
             if batch.result.is_err() {
                 return Err(Failure::new(format!("batch-error-only: {}", kind), format!("line {}: batch run over the prefix fails ({:?}) but the incremental run does not\n  {}", k, batch.result, context)));
             }
             let brec = batch.records();
-            if let Some(rr) = &inc.result {
-                transcript.push(print_rows(rr).into_iter().filter(|l| !l.is_empty()).collect());
-            }
-            if aggregate {
-                if let Some(rr) = &inc.result {
-                    shown = print_rows(rr).into_iter().filter(|l| !l.is_empty()).collect();
-                    if shown.len() >= 2 {
-                        refreshes_with_two_rows += 1;
-                    }
-                }
-                if shown != brec {
+            if shown != brec {
+                if aggregate {
                     return Err(Failure::new(
                         format!("table-differs: {}", kind),
                         format!("after line {} the incremental table is {:?}\n  the batch run over the first {} lines prints {:?}\n  {}", k, shown, k, brec, context),
                     ));
                 }
-            } else {
-                let emitted: Vec<String> = inc.result.as_ref().map(|rr| print_rows(rr).into_iter().filter(|l| !l.is_empty()).collect()).unwrap_or_default();
-                if brec.len() < prev_batch.len() || brec[..prev_batch.len()] != prev_batch[..] {
-                    return Err(Failure::new(format!("batch-not-monotone: {}", kind), format!("batch({}) does not extend batch({})\n  {}", k, k - 1, context)));
-                }
-                let suffix: Vec<String> = brec[prev_batch.len()..].to_vec();
-                if emitted != suffix {
-                    return Err(Failure::new(
-                        format!("rows-differ: {}", kind),
-                        format!("line {} emitted {:?} incrementally, but the batch output grows by {:?}\n  {}", k, emitted, suffix, context),
-                    ));
-                }
-                shown.extend(emitted);
-                prev_batch = brec;
+                // the rows emitted line by line so far = the records of the batch run over the prefix
+                let common = shown.iter().zip(brec.iter()).take_while(|(a, b)| a == b).count();
+                return Err(Failure::new(
+                    format!("rows-differ: {}", kind),
+                    format!("after line {} the rows emitted incrementally and the batch output over the prefix differ from record {} on:\n    incremental: {:?}\n    batch:       {:?}\n  {}", k, common, &shown[common..], &brec[common..], context),
+                ));
             }
         }
         // the real FollowFileExecutor (own process; refreshes are delimited by the clear-screen sequence)
